@@ -238,7 +238,7 @@ func (g *gen) history(sessions, steps int) []Event {
 // handles both (a "stmt" without a transaction is an autocommit statement, a "commit" without one
 // fails with "no ongoing transaction"), and so does the model.
 
-// scripted histories: the shapes behind each constraint, incl. the known defects' witnesses
+// scripted histories: the shapes behind each constraint, incl. the witnesses of the repaired defects
 func scripted() []struct {
 	cfg Cfg
 	evs []Event
